@@ -1,9 +1,9 @@
 (* Composition theorems: the contracts that the C16/C17/C20 theorems ASSUME of the oracle record are PROVED for the instance built
    from the generated / proved models of C03 (optimum idler) and C04 (auto poling period, auto crystal angle, Nelder-Mead). *)
-From Coq Require Import Reals Lra List Bool ZArith QArith.
+From Coq Require Import Reals Lra List Bool ZArith QArith FunctionalExtensionality.
 From SpdVerif Require Import Base.Rx Base.Vec3 Base.CfgNumOps Model.NumInst Spec.ConfigSpec Gen.ConfigTables Gen.ConfigSites Spec.ConfigUnits
   Model.ConfigTypes Model.Config Model.Cfg_Composed
-  Proofs.C16_round Proofs.C16_roundtrip Proofs.C17_rules Proofs.C17_finite Proofs.C17_entry Proofs.C17_current Proofs.C20_idempotent.
+  Proofs.C16_round Proofs.C16_roundtrip Proofs.C17_rules Proofs.C17_finite Proofs.C17_entry Proofs.C20_idempotent Proofs.Cfg_flags_tac.
 From SpdVerif Require Proofs.C03_idler Proofs.C04_poling Proofs.C04_nm.
 Import ListNotations.
 Local Open Scope R_scope.
@@ -30,110 +30,137 @@ Section Composed.
   Local Notation KM := (oracles_of_model index_of snell_inv sd_theta sd_period).
 
   (* ---- definedness, PER INPUT.  Over the reals every operation is total, but the implementation's are not: asin beyond
-     [-1, 1], sqrt of a negative number, 0/0.  The composed oracles answer None there (Model/Cfg_Composed.v), so the theorems
-     below carry, as named hypotheses about the configuration at hand, exactly what finding F7b / F7f / F7h violate. *)
-  (* the signal is not beyond total internal reflection in the crystal at its placeholder angle (needed only when the crystal
-     angle is automatic: CrystalSetup::optimum_theta starts from signal.theta_external) *)
+     [-1, 1], sqrt of a negative number, 0/0.  The composed oracles carry the guards (Model/Cfg_Composed.v); the theorems below
+     carry, as named hypotheses about the configuration at hand, what the "nothing non-finite" clause needs, and -- only for a
+     code WITHOUT the repairs of F7b / F7h (flags false) -- what "never panics" needs. *)
+  (* the signal is not beyond total internal reflection in the crystal at its placeholder angle *)
   Definition no_total_internal_reflection (c : spdc_cfg R) : Prop :=
     forall signal, signal_step R_ops KM c = Ok signal -> is_auto (cc_theta_deg (c_crystal c)) = true -> c_pp c = PCOff ->
       snell_ext_defined index_of signal (cfg_cs0 R_ops c) = true.
-  (* every candidate angle the search evaluates has a defined cost *)
-  Definition angle_search_defined (c : spdc_cfg R) : Prop :=
+  (* every candidate crystal angle has a defined cost (Snell inverse answers, unpoled idler defined) *)
+  Definition angle_costs_defined (c : spdc_cfg R) : Prop :=
     forall signal, signal_step R_ops KM c = Ok signal -> is_auto (cc_theta_deg (c_crystal c)) = true -> c_pp c = PCOff ->
-      theta_search_defined index_of snell_inv sd_theta (erase_theta R_ops (cfg_cs0 R_ops c))
-        (asin (snell_arg index_of signal (cfg_cs0 R_ops c))) signal (cfg_pump R_ops c) = true.
-  (* every candidate period the search evaluates has a defined cost (and so has the unpoled mismatch it starts from) *)
-  Definition period_search_defined_at (c : spdc_cfg R) : Prop :=
+      forall x, theta_cost_defined index_of snell_inv (erase_theta R_ops (cfg_cs0 R_ops c))
+                  (asin (snell_arg index_of signal (cfg_cs0 R_ops c))) signal (cfg_pump R_ops c) x = true.
+  (* the unpoled mismatch the period search starts from is defined, and so is the cost of every candidate period *)
+  Definition period_costs_defined (c : spdc_cfg R) : Prop :=
     forall signal a, signal_step R_ops KM c = Ok signal -> c_pp c = PCConfig Auto a ->
-      period_search_defined index_of sd_period signal (cfg_pump R_ops c) (cfg_cs0 R_ops c) = true.
+      idler_defined index_of signal (cfg_pump R_ops c) (cfg_cs0 R_ops c) MI.PPOff = true /\
+      forall x, period_cost_defined index_of signal (cfg_pump R_ops c) (cfg_cs0 R_ops c) x = true.
 
+  Lemma forallb_all {A} (f : A -> bool) l : (forall x, f x = true) -> forallb f l = true.
+  Proof. intros H. apply forallb_forall. intros x _. apply H. Qed.
+
+  (* with every candidate defined, the guarded searches ARE C04's *)
+  Lemma theta_g_eq cs0 e s p : (forall x, theta_cost_defined index_of snell_inv cs0 e s p x = true) ->
+    optimum_theta_g index_of snell_inv sd_theta cs0 e s p = MA.optimum_theta (theta_cost_c index_of snell_inv cs0 e s p) MA.real_ops sd_theta.
+  Proof.
+    intros H.
+    assert (E : th_cost_g index_of snell_inv cs0 e s p = MA.th_cost (theta_cost_c index_of snell_inv cs0 e s p)).
+    { apply functional_extensionality. intros x. unfold th_cost_g. rewrite H. reflexivity. }
+    unfold optimum_theta_g, MA.optimum_theta. rewrite E. reflexivity.
+  Qed.
+  Lemma period_g_eq s p cs : (forall x, period_cost_defined index_of s p cs x = true) ->
+    nm_period_g index_of sd_period s p cs = MA.nm_period (dkz_c index_of s p cs) MA.real_ops sd_period (cs_length cs).
+  Proof.
+    intros H.
+    assert (E : pol_cost_g index_of s p cs = MA.pol_cost (dkz_c index_of s p cs) (cs_length cs)).
+    { apply functional_extensionality. intros x. unfold pol_cost_g. rewrite H. reflexivity. }
+    unfold nm_period_g, MA.nm_period. rewrite E. reflexivity.
+  Qed.
+
+  Lemma nm_theta_some cs0 e s p : (forall x, theta_cost_defined index_of snell_inv cs0 e s p x = true) ->
+    o_nm_theta KM cs0 e s p = Some (MA.optimum_theta (theta_cost_c index_of snell_inv cs0 e s p) MA.real_ops sd_theta).
+  Proof.
+    intros H. cbn [o_nm_theta oracles_of_model]. destruct GA.nm_nan_cost_is_infinite.
+    - rewrite (theta_g_eq _ _ _ _ H). reflexivity.
+    - unfold theta_search_defined. rewrite (forallb_all _ _ H). reflexivity.
+  Qed.
+  Lemma nm_period_some s p cs : idler_defined index_of s p cs MI.PPOff = true ->
+    (forall x, period_cost_defined index_of s p cs x = true) ->
+    o_nm_period KM s p cs = Some (MA.nm_period (dkz_c index_of s p cs) MA.real_ops sd_period (cs_length cs)).
+  Proof.
+    intros Hi H. cbn [o_nm_period oracles_of_model]. destruct GA.nm_nan_cost_is_infinite.
+    - rewrite Hi, (period_g_eq _ _ _ H). reflexivity.
+    - unfold period_search_defined. rewrite Hi, (forallb_all _ _ H). reflexivity.
+  Qed.
+
+  (* what "never panics" needs of a code WITHOUT the repairs; every clause is void once the solver cannot fail *)
   Lemma searches_defined_composed c :
-    (forall b e cs, snell_inv b e cs <> None) ->
-    (cfg_checks_total_reflection = false -> no_total_internal_reflection c) -> angle_search_defined c ->
-    (searches_cannot_fail = false -> period_search_defined_at c) ->
+    (searches_cannot_fail = false -> forall b e cs, snell_inv b e cs <> None) ->
+    (cfg_checks_total_reflection = false -> searches_cannot_fail = false -> no_total_internal_reflection c) ->
+    (searches_cannot_fail = false -> angle_costs_defined c) ->
+    (searches_cannot_fail = false -> period_costs_defined c) ->
     searches_defined_at R_ops KM c.
   Proof.
     intros H Htir Hang Hper. split; [exact H |]. intros signal Hs. split.
-    - intros Hau Hoff. specialize (Hang signal Hs Hau Hoff).
-      cbn [o_snell_ext o_nm_theta oracles_of_model]. split.
-      + intros Hf. rewrite (Htir Hf signal Hs Hau Hoff). discriminate.
-      + intros e He. destruct (snell_ext_defined index_of signal (cfg_cs0 R_ops c)); [| discriminate].
-        inversion He. subst e. rewrite Hang. discriminate.
-    - intros a Ha Hf. specialize (Hper Hf signal a Hs Ha). cbn [o_nm_period oracles_of_model]. rewrite Hper. discriminate.
+    - intros Hau Hoff. split.
+      + intros Hf Hn. cbn [o_snell_ext oracles_of_model]. rewrite (Htir Hf Hn signal Hs Hau Hoff). discriminate.
+      + intros Hn e He. revert He. cbn [o_snell_ext oracles_of_model].
+        destruct (snell_ext_defined index_of signal (cfg_cs0 R_ops c)); [| discriminate]. intros He. inversion He. subst e.
+        rewrite (nm_theta_some _ _ _ _ (Hang Hn signal Hs Hau Hoff)). discriminate.
+    - intros a Ha Hn. destruct (Hper Hn signal a Hs Ha) as [Hi Hx]. rewrite (nm_period_some _ _ _ Hi Hx). discriminate.
   Qed.
 
-  (* C17: never panics -- for a configuration whose searches meet no undefined cost; plus totality of the Snell inverse (C13).
-     The hypotheses that the repairs of F7b / F7h make unnecessary are guarded by the source-derived flags: once try_as_spdc checks
-     the external angle (cfg_checks_total_reflection) the first is void, once the solver cannot fail (searches_cannot_fail) the
-     third is *)
-  Theorem no_panic_composed U minpos c :
-    (forall b e cs, snell_inv b e cs <> None) ->
-    (cfg_checks_total_reflection = false -> no_total_internal_reflection c) -> angle_search_defined c ->
-    (searches_cannot_fail = false -> period_search_defined_at c) ->
-    is_panic (try_as_spdc_now R_ops U KM minpos c) = false.
+  (* C17: never panics.  [rj]: the zero-period flag (any value); the entry validates the wavelengths *)
+  Theorem no_panic_composed U minpos rj c :
+    (searches_cannot_fail = false -> forall b e cs, snell_inv b e cs <> None) ->
+    (cfg_checks_total_reflection = false -> searches_cannot_fail = false -> no_total_internal_reflection c) ->
+    (searches_cannot_fail = false -> angle_costs_defined c) ->
+    (searches_cannot_fail = false -> period_costs_defined c) ->
+    is_panic (try_as_spdc R_ops U KM minpos rj true c) = false.
   Proof.
-    intros H Htir Hang Hper. apply now_no_panic_at; [exact scale_order_R | apply searches_defined_composed; assumption].
+    intros H Htir Hang Hper. apply validated_no_panic_at; [exact scale_order_R | apply searches_defined_composed; assumption].
   Qed.
 
-  (* ... and the first hypothesis cannot be dropped while the code does not check: a signal beyond total internal reflection with
-     an automatic crystal angle PANICS in the composed model, as in the implementation (finding F7b; concrete witness in
-     Findings/C17_F7b_composed.v); with the check it is the error the property asks for *)
-  Theorem tir_outcome_composed U minpos c signal :
+  (* a signal beyond total internal reflection with an automatic crystal angle: the error the property asks for once the code
+     checks; the panic of finding F7b on a code with neither repair (concrete witness in Findings/C17_F7b_composed.v) *)
+  Lemma tir_steps c signal rj minpos U :
     cfg_le R_ops c = false -> signal_step R_ops KM c = Ok signal ->
     is_auto (cc_theta_deg (c_crystal c)) = true -> c_pp c = PCOff ->
     snell_ext_defined index_of signal (cfg_cs0 R_ops c) = false ->
-    try_as_spdc_now R_ops U KM minpos c =
-      if cfg_checks_total_reflection then Err ETotalReflection else Panic SiteNelderMeadUnwrap.
+    try_as_spdc R_ops U KM minpos rj true c =
+      if cfg_checks_total_reflection then Err ETotalReflection
+      else bind (bind (optimum_theta R_ops KM (cfg_cs0 R_ops c) signal (cfg_pump R_ops c))
+                      (fun th => Ok (set_crystal_theta (cfg_cs0 R_ops c) th)))
+             (fun cs => bind (idler_step R_ops KM c signal cs PolOff)
+                (fun idn => Ok (finish_spdc R_ops U KM c signal PolOff [] cs (fst idn) (snd idn)))).
   Proof.
-    intros Hle Hs Hau Hoff Hd. rewrite (now_steps R R_ops U KM minpos c Hle). unfold try_as_spdc_steps.
+    intros Hle Hs Hau Hoff Hd. unfold try_as_spdc. rewrite Hle. cbn [andb]. unfold try_as_spdc_steps.
     fold (signal_step R_ops KM c). rewrite Hs. cbn [bind]. unfold poling_step, poling_of_cfg. rewrite Hoff. cbn [bind fst snd].
-    unfold theta_step. rewrite Hau. cbn [is_pol_off]. unfold optimum_theta, ext_defined. cbn [o_snell_ext oracles_of_model]. rewrite Hd.
+    unfold theta_step. rewrite Hau. cbn [is_pol_off]. unfold ext_defined. cbn [o_snell_ext oracles_of_model]. rewrite Hd.
     cbn [negb]. rewrite andb_true_r. destruct cfg_checks_total_reflection; reflexivity.
   Qed.
 
-  Theorem tir_panics_composed U minpos c signal :
-    cfg_checks_total_reflection = false ->
-    cfg_le R_ops c = false -> signal_step R_ops KM c = Ok signal ->
-    is_auto (cc_theta_deg (c_crystal c)) = true -> c_pp c = PCOff ->
-    snell_ext_defined index_of signal (cfg_cs0 R_ops c) = false ->
-    try_as_spdc_now R_ops U KM minpos c = Panic SiteNelderMeadUnwrap.
-  Proof. intros Hf Hle Hs Hau Hoff Hd. rewrite (tir_outcome_composed U minpos c signal Hle Hs Hau Hoff Hd), Hf. reflexivity. Qed.
-
-  Theorem tir_is_error_composed U minpos c signal :
+  Theorem tir_is_error_composed U minpos rj c signal :
     cfg_checks_total_reflection = true ->
     cfg_le R_ops c = false -> signal_step R_ops KM c = Ok signal ->
     is_auto (cc_theta_deg (c_crystal c)) = true -> c_pp c = PCOff ->
     snell_ext_defined index_of signal (cfg_cs0 R_ops c) = false ->
-    try_as_spdc_now R_ops U KM minpos c = Err ETotalReflection.
-  Proof. intros Hf Hle Hs Hau Hoff Hd. rewrite (tir_outcome_composed U minpos c signal Hle Hs Hau Hoff Hd), Hf. reflexivity. Qed.
+    try_as_spdc R_ops U KM minpos rj true c = Err ETotalReflection.
+  Proof. intros Hf Hle Hs Hau Hoff Hd. rewrite (tir_steps c signal rj minpos U Hle Hs Hau Hoff Hd), Hf. reflexivity. Qed.
 
-  (* FULL STRENGTH with the repairs in the code (C17_current.repairs_now): only the crystal-angle search of a signal whose external
-     angle exists has to meet defined costs (and the Snell inverse has to answer, C13) *)
-  Theorem no_panic_composed_now U minpos c :
-    (forall b e cs, snell_inv b e cs <> None) -> angle_search_defined c ->
-    is_panic (try_as_spdc_now R_ops U KM minpos c) = false.
-  Proof.
-    intros H Hang. destruct repairs_now as (_ & Ht & Hn & _).
-    apply no_panic_composed; [exact H | rewrite Ht; discriminate | exact Hang | rewrite Hn; discriminate].
-  Qed.
-
-  Theorem tir_is_error_composed_now U minpos c signal :
+  Theorem tir_panics_composed U minpos rj c signal :
+    cfg_checks_total_reflection = false -> searches_cannot_fail = false ->
     cfg_le R_ops c = false -> signal_step R_ops KM c = Ok signal ->
     is_auto (cc_theta_deg (c_crystal c)) = true -> c_pp c = PCOff ->
     snell_ext_defined index_of signal (cfg_cs0 R_ops c) = false ->
-    try_as_spdc_now R_ops U KM minpos c = Err ETotalReflection.
-  Proof. intros. apply tir_is_error_composed with (signal := signal); try assumption. exact (proj1 (proj2 repairs_now)). Qed.
+    try_as_spdc R_ops U KM minpos rj true c = Panic SiteNelderMeadUnwrap.
+  Proof.
+    intros Hf Hn Hle Hs Hau Hoff Hd. rewrite (tir_steps c signal rj minpos U Hle Hs Hau Hoff Hd), Hf.
+    unfold optimum_theta. cbn [o_snell_ext oracles_of_model]. rewrite Hd, Hn. reflexivity.
+  Qed.
 
-  (* the index along z is never 0 (a property of the index function; true of every physical crystal), and the emission angle of
-     THIS configuration's optimum idler is defined *)
-  Definition idler_defined_at (minpos : R) (c : spdc_cfg R) : Prop :=
+  (* ---- "nothing non-finite": the index along z is never 0 (a property of the index function; true of every physical crystal),
+     the emission angle of THIS configuration's optimum idler is defined, the searches' candidates have defined costs *)
+  Definition idler_defined_at (minpos : R) (rj : bool) (c : spdc_cfg R) : Prop :=
     forall signal pp nfp cs, signal_step R_ops KM c = Ok signal ->
-      poling_step R_ops KM minpos cfg_rejects_bad_period c signal = Ok (pp, nfp) -> theta_step R_ops KM c signal pp = Ok cs ->
+      poling_step R_ops KM minpos rj c signal = Ok (pp, nfp) -> theta_step R_ops KM c signal pp = Ok cs ->
       idler_defined index_of signal (cfg_pump R_ops c) cs (ipp pp) = true.
 
-  Lemma geometry_defined_composed minpos c :
-    (forall cs l pol, index_of cs l ez pol <> 0) -> idler_defined_at minpos c ->
-    geometry_defined_at R_ops KM minpos cfg_rejects_bad_period c.
+  Lemma geometry_defined_composed minpos rj c :
+    (forall cs l pol, index_of cs l ez pol <> 0) -> idler_defined_at minpos rj c ->
+    geometry_defined_at R_ops KM minpos rj c.
   Proof.
     intros Hn Hi. split.
     - intros cs l p. cbn [o_waist_pos oracles_of_model]. unfold waist_defined.
@@ -141,18 +168,32 @@ Section Composed.
     - intros signal pp nfp cs Hs Hp Ht. cbn [o_idler_theta oracles_of_model]. rewrite (Hi signal pp nfp cs Hs Hp Ht). discriminate.
   Qed.
 
-  Theorem ok_finite_or_err_composed U minpos c :
+  Lemma search_results_defined_composed c :
     (forall b e cs, snell_inv b e cs <> None) ->
-    (cfg_checks_total_reflection = false -> no_total_internal_reflection c) -> angle_search_defined c ->
-    (searches_cannot_fail = false -> period_search_defined_at c) ->
-    (forall cs l pol, index_of cs l ez pol <> 0) -> idler_defined_at minpos c ->
+    (cfg_checks_total_reflection = false -> no_total_internal_reflection c) ->
+    angle_costs_defined c -> period_costs_defined c ->
+    search_results_defined_at R_ops KM c.
+  Proof.
+    intros H Htir Hang Hper. split; [exact H |]. intros signal Hs. repeat split.
+    - intros Hau Hoff e He. revert He. cbn [o_snell_ext oracles_of_model].
+      destruct (snell_ext_defined index_of signal (cfg_cs0 R_ops c)); [| discriminate]. intros He. inversion He. subst e.
+      rewrite (nm_theta_some _ _ _ _ (Hang signal Hs Hau Hoff)). discriminate.
+    - intros Hf Hau Hoff. cbn [o_snell_ext oracles_of_model]. rewrite (Htir Hf signal Hs Hau Hoff). discriminate.
+    - intros a Ha _. destruct (Hper signal a Hs Ha) as [Hi Hx]. rewrite (nm_period_some _ _ _ Hi Hx). discriminate.
+  Qed.
+
+  Theorem ok_finite_or_err_composed U minpos rj c :
+    (forall b e cs, snell_inv b e cs <> None) ->
+    (cfg_checks_total_reflection = false -> no_total_internal_reflection c) ->
+    angle_costs_defined c -> period_costs_defined c ->
+    (forall cs l pol, index_of cs l ez pol <> 0) -> idler_defined_at minpos rj c ->
     (forall signal, signal_step R_ops KM c = Ok signal ->
        dkz_c index_of signal (cfg_pump R_ops c) (cfg_cs0 R_ops c) MI.PPOff <> 0) ->
-    (exists s, try_as_spdc_now R_ops U KM minpos c = Ok (s, [])) \/ (exists e, try_as_spdc_now R_ops U KM minpos c = Err e).
+    (exists s, try_as_spdc R_ops U KM minpos rj true c = Ok (s, [])) \/ (exists e, try_as_spdc R_ops U KM minpos rj true c = Err e).
   Proof.
     intros H Htir Hang Hper Hn Hi Hz.
-    apply now_ok_finite_or_err_at; [exact scale_order_R | apply searches_defined_composed; assumption
-                                   | apply geometry_defined_composed; assumption |].
+    apply validated_ok_finite_or_err_at; [exact scale_order_R | apply search_results_defined_composed; assumption
+                                         | apply geometry_defined_composed; assumption |].
     intros signal Hs. specialize (Hz signal Hs). cbn [o_dkz0 oracles_of_model neqb R_ops]. rewrite n0_R.
     destruct (Req_EM_T _ 0); [contradiction | reflexivity].
   Qed.
@@ -199,18 +240,18 @@ Section Composed.
     try_as_optimum_now KM minpos s = Ok (s', nf) -> try_as_optimum_now KM minpos s' = Ok (s', nf).
   Proof. intros Hdef. apply optimum_idempotent_now_at. apply optimum_contract_composed. exact Hdef. Qed.
 
-  (* ---- the auto poling period of the composed instance IS C04's optimum_poling_period *)
+  (* ---- the auto poling period of the composed instance IS C04's optimum_poling_period (every candidate defined) *)
   Theorem period_composed s p cs :
     signal_le_pump R_ops s p = false ->
-    period_search_defined index_of sd_period s p cs = true ->
+    idler_defined index_of s p cs MI.PPOff = true -> (forall x, period_cost_defined index_of s p cs x = true) ->
     match MA.optimum_poling_period (dkz_c index_of s p cs) MA.real_ops sd_period (cs_length cs) with
     | MA.AutoInfinite => optimum_poling_period R_ops KM GA.opp_min_period s p cs = Ok (inr tt)
     | MA.AutoErr => optimum_poling_period R_ops KM GA.opp_min_period s p cs = Err EImpossiblePeriod
     | MA.AutoOk v => optimum_poling_period R_ops KM GA.opp_min_period s p cs = Ok (inl v)
     end.
   Proof.
-    intros Hle Hdef. unfold optimum_poling_period, MA.optimum_poling_period. rewrite Hle.
-    cbn [o_dkz0 o_nm_period oracles_of_model neqb nltb R_ops]. rewrite n0_R, Hdef.
+    intros Hle Hi Hdef. unfold optimum_poling_period, MA.optimum_poling_period. rewrite Hle, (nm_period_some _ _ _ Hi Hdef).
+    cbn [o_dkz0 oracles_of_model neqb nltb R_ops]. rewrite n0_R.
     unfold GA.opp_perfect, MA.z0.
     destruct (Req_EM_T (dkz_c index_of s p cs MI.PPOff) 0) as [Hz | Hz]; [reflexivity |].
     set (per := MA.nm_period (dkz_c index_of s p cs) MA.real_ops sd_period (cs_length cs)).
@@ -228,44 +269,41 @@ Section Composed.
     destruct (Rlt_dec (dkz_c index_of s p cs MI.PPOff) 0); ring.
   Qed.
 
-  (* an accepted automatic period: the search met no undefined cost, and the period is C04's *)
   Lemma period_composed_ok s p cs v :
+    idler_defined index_of s p cs MI.PPOff = true -> (forall x, period_cost_defined index_of s p cs x = true) ->
     optimum_poling_period R_ops KM GA.opp_min_period s p cs = Ok (inl v) ->
     MA.optimum_poling_period (dkz_c index_of s p cs) MA.real_ops sd_period (cs_length cs) = MA.AutoOk v.
   Proof.
-    intros H. destruct (signal_le_pump R_ops s p) eqn:Hle.
+    intros Hi Hdef H. destruct (signal_le_pump R_ops s p) eqn:Hle.
     - unfold optimum_poling_period in H. rewrite Hle in H. discriminate.
-    - destruct (period_search_defined index_of sd_period s p cs) eqn:Hdef.
-      + pose proof (period_composed s p cs Hle Hdef) as Hc.
-        destruct (MA.optimum_poling_period (dkz_c index_of s p cs) MA.real_ops sd_period (cs_length cs)); rewrite Hc in H; try discriminate.
-        inversion H. reflexivity.
-      + exfalso. revert H. unfold optimum_poling_period. rewrite Hle. cbn [o_dkz0 o_nm_period oracles_of_model]. rewrite Hdef.
-        destruct (neqb R_ops _ _); discriminate.
+    - pose proof (period_composed s p cs Hle Hi Hdef) as Hc.
+      destruct (MA.optimum_poling_period (dkz_c index_of s p cs) MA.real_ops sd_period (cs_length cs)); rewrite Hc in H; try discriminate.
+      inversion H. reflexivity.
   Qed.
 
   (* ... so an accepted automatic period obeys C04's sign-and-bound rule *)
   Theorem auto_period_sign_and_bound s p cs v :
+    idler_defined index_of s p cs MI.PPOff = true -> (forall x, period_cost_defined index_of s p cs x = true) ->
     optimum_poling_period R_ops KM GA.opp_min_period s p cs = Ok (inl v) ->
     0 < Rabs v <= cs_length cs /\
     (0 < dkz_c index_of s p cs MI.PPOff -> 0 < v) /\ (dkz_c index_of s p cs MI.PPOff < 0 -> v < 0).
   Proof.
-    intros H. pose proof (period_composed_ok s p cs v H) as Ho.
+    intros Hi Hdef H. pose proof (period_composed_ok s p cs v Hi Hdef H) as Ho.
     destruct (C04_poling.sign_and_bound _ _ _ _ _ Ho) as (_ & _ & _ & Hb & Hp & Hn & _).
     repeat split; try apply Hb; assumption.
   Qed.
 
-  (* ---- the auto crystal angle of the composed instance IS C04's optimum_theta, hence in [0, pi/2] *)
-  Theorem theta_composed cs s p th :
+  (* ---- the auto crystal angle of the composed instance IS C04's optimum_theta (every candidate defined), hence in [0, pi/2] *)
+  Theorem theta_composed cs s p th e :
+    o_snell_ext KM s cs = Some e ->
+    (forall x, theta_cost_defined index_of snell_inv (erase_theta R_ops cs) e s p x = true) ->
     optimum_theta R_ops KM cs s p = Ok th ->
-    exists e, o_snell_ext KM s cs = Some e /\
-      th = MA.optimum_theta (theta_cost_c index_of snell_inv (erase_theta R_ops cs) e s p) MA.real_ops sd_theta /\
-      0 <= th <= PI / 2.
+    th = MA.optimum_theta (theta_cost_c index_of snell_inv (erase_theta R_ops cs) e s p) MA.real_ops sd_theta /\
+    0 <= th <= PI / 2.
   Proof.
-    unfold optimum_theta. cbn [o_snell_ext o_nm_theta oracles_of_model].
-    destruct (snell_ext_defined index_of s cs); [| discriminate].
-    destruct (signal_le_pump R_ops s p); [discriminate |].
-    destruct (theta_search_defined _ _ _ _ _ _ _); [| discriminate]. intros H. inversion H.
-    eexists. split; [reflexivity |]. split; [reflexivity |]. apply C04_poling.theta_range.
+    intros He Hdef. unfold optimum_theta. rewrite He, (nm_theta_some _ _ _ _ Hdef).
+    destruct (signal_le_pump R_ops s p); [discriminate |]. intros H. inversion H.
+    split; [reflexivity |]. apply C04_poling.theta_range.
   Qed.
 
   (* compute_sign of the composed instance is the sign of C03/C04's unpoled mismatch *)
@@ -327,15 +365,19 @@ Section Composed.
     rewrite Hphi_eq, Hth_eq, Hpol. reflexivity.
   Qed.
 
-  (* C16: each "auto" field of a converted configuration IS the value C03 / C04's models compute on the setup built so far *)
+  (* C16: each "auto" field of a converted configuration IS the value C03 / C04's models compute on the setup built so far, where
+     the candidates of the searches have defined costs (with the NaN-safe solver an undefined candidate costs +infinity and the
+     result is the guarded search's, not C04's) *)
   Theorem auto_is_explicit_composed U rj c s nf :
     try_as_spdc_steps R_ops U KM GA.opp_min_period rj c = Ok (s, nf) ->
-    (cc_theta_deg (c_crystal c) = Auto ->
-       exists e, o_snell_ext KM (s_signal s) (cfg_cs0 R_ops c) = Some e /\
+    (cc_theta_deg (c_crystal c) = Auto -> forall e, o_snell_ext KM (s_signal s) (cfg_cs0 R_ops c) = Some e ->
+       (forall x, theta_cost_defined index_of snell_inv (erase_theta R_ops (cfg_cs0 R_ops c)) e (s_signal s) (s_pump s) x = true) ->
          cs_theta (s_crystal s) =
            MA.optimum_theta (theta_cost_c index_of snell_inv (erase_theta R_ops (cfg_cs0 R_ops c)) e (s_signal s) (s_pump s)) MA.real_ops sd_theta /\
          0 <= cs_theta (s_crystal s) <= PI / 2) /\
     (forall a, c_pp c = PCConfig Auto a -> ~ In NFPeriodInfinite nf ->
+       idler_defined index_of (s_signal s) (s_pump s) (cfg_cs0 R_ops c) MI.PPOff = true ->
+       (forall x, period_cost_defined index_of (s_signal s) (s_pump s) (cfg_cs0 R_ops c) x = true) ->
        exists v, MA.optimum_poling_period (dkz_c index_of (s_signal s) (s_pump s) (cfg_cs0 R_ops c)) MA.real_ops sd_period
                    (cs_length (cfg_cs0 R_ops c)) = MA.AutoOk v /\
                  s_pp s = poling_new R_ops v (apod_of_cfg R_ops a) /\ 0 < Rabs v <= cs_length (cfg_cs0 R_ops c)) /\
@@ -346,10 +388,11 @@ Section Composed.
   Proof.
     intros H. destruct (auto_is_explicit R R_ops U KM GA.opp_min_period rj c s nf H) as (Ht & _ & Hp & _ & Hi & _).
     repeat split.
-    - intros Ha. destruct (Ht Ha) as [Hth _]. destruct (theta_composed _ _ _ _ Hth) as (e & He & Heq & Hr).
-      exists e. repeat split; assumption || apply Hr.
-    - intros a Ha Hnf. destruct (Hp a Ha) as [(per & Hper & Hpp) | (_ & Hin)]; [| contradiction].
-      exists per. pose proof (period_composed_ok _ _ _ _ Hper) as Ho. split; [exact Ho |]. split; [exact Hpp |].
+    - destruct (Ht H0) as [Hth _]. apply (theta_composed _ _ _ _ _ H1 H2 Hth).
+    - destruct (Ht H0) as [Hth _]. apply (theta_composed _ _ _ _ _ H1 H2 Hth).
+    - destruct (Ht H0) as [Hth _]. apply (theta_composed _ _ _ _ _ H1 H2 Hth).
+    - intros a Ha Hnf Hid Hdef. destruct (Hp a Ha) as [(per & Hper & Hpp) | (_ & Hin)]; [| contradiction].
+      exists per. pose proof (period_composed_ok _ _ _ _ Hid Hdef Hper) as Ho. split; [exact Ho |]. split; [exact Hpp |].
       destruct (C04_poling.sign_and_bound _ _ _ _ _ Ho) as (_ & _ & _ & Hb & _). exact Hb.
     - intros Ha Hwf Hlp Hdef. destruct (Hi Ha) as (nfi & Hio).
       pose proof (idler_composed (s_signal s) (s_pump s) (s_crystal s) (s_pp s) Hwf Hlp Hdef) as Hc.
